@@ -791,3 +791,152 @@ def controls(st, specs):
                 fired.add('C19.ctor')
     for rid in chk.rules:
         chk.control(rid, rid in fired)
+
+
+# =====================================================================================================
+# C19.reskeys (lead): vocabulary agreement for the resolution fields the Specs expect
+# =====================================================================================================
+# The resolution of an entity is a dict; a field the Specs expect can only come out if some statement of the serving package
+# writes that key (dict literal, subscript store, dict(...) keyword - keys evaluated through the index, so
+# TimeTypeConstants.START counts as 'start').  Decided for the fields the Python runner compares (the port's own statement
+# of what it supports); other expected fields that no statement writes are listed as observations (feature gaps of the
+# port that its runner does not look at), never as violations.
+
+RESKEY_PKG = {'Number': 'recognizers_number', 'NumberWithUnit': 'recognizers_number_with_unit', 'DateTime': 'recognizers_date_time',
+              'Sequence': 'recognizers_sequence', 'Choice': 'recognizers_choice'}
+# fields compared by Python/tests/test_runner_*.py (checked against the test modules' string literals below)
+RESKEY_COMPARED = {'Number': ('test_runner_number', ['value']),
+                   'NumberWithUnit': ('test_runner_number_with_unit', ['value', 'unit', 'isoCurrency']),
+                   'DateTime': ('test_runner_datetime', ['values', 'timex', 'type', 'value', 'start', 'end', 'Mod']),
+                   'Sequence': ('test_runner_sequence', ['value', 'score']),
+                   'Choice': ('test_runner_choice', ['value'])}
+
+
+def written_keys(idx, pkgs):
+    """{key: first (Mod, lineno)} over dict-literal keys, subscript stores and dict(...) keywords in non-resource modules"""
+    from .c07 import NOVAL, make_evalc
+    out = {}
+    # helpers that store under a key they receive: {function name: [argument positions (self excluded)]}
+    key_params = {}
+    for m in idx.mods.values():
+        if m.name.split('.')[0] not in pkgs | {'recognizers_text'} or '.resources.' in m.name:
+            continue
+        for _mm, _c, fn in idx.functions(m):
+            params = [a.arg for a in fn.args.args]
+            if params and params[0] in ('self', 'cls'):
+                params = params[1:]
+            for n in ast.walk(fn):
+                if isinstance(n, ast.Subscript) and isinstance(n.ctx, ast.Store) and isinstance(n.slice, ast.Name) \
+                        and n.slice.id in params:
+                    key_params.setdefault(fn.name.lstrip('_'), set()).add(params.index(n.slice.id))
+    for m in idx.mods.values():
+        if m.name.split('.')[0] not in pkgs or '.resources.' in m.name:
+            continue
+        ev = make_evalc(idx, m)
+        cands = []
+        for n in ast.walk(m.tree):
+            if isinstance(n, ast.Call):
+                fname = n.func.attr if isinstance(n.func, ast.Attribute) else n.func.id if isinstance(n.func, ast.Name) else ''
+                for pos in key_params.get(fname.lstrip('_'), ()):
+                    if pos < len(n.args):
+                        cands.append(n.args[pos])
+                if fname == 'dict' and n.args and isinstance(n.args[0], (ast.List, ast.Tuple)):
+                    for e in n.args[0].elts:
+                        if isinstance(e, ast.Tuple) and len(e.elts) == 2:
+                            cands.append(e.elts[0])
+        for n in ast.walk(m.tree):
+            if isinstance(n, ast.Dict):
+                cands.extend(k for k in n.keys if k is not None)
+            elif isinstance(n, (ast.Assign, ast.AugAssign, ast.AnnAssign)):
+                tg = n.targets if isinstance(n, ast.Assign) else [n.target]
+                for t in tg:
+                    for s in ast.walk(t):
+                        if isinstance(s, ast.Subscript) and isinstance(s.ctx, ast.Store) and not isinstance(s.slice, ast.Slice):
+                            cands.append(s.slice)
+            elif isinstance(n, ast.Call):
+                if isinstance(n.func, ast.Name) and n.func.id == 'dict':
+                    for kw in n.keywords:
+                        if kw.arg:
+                            out.setdefault(kw.arg, (m, n.lineno))
+                if isinstance(n.func, ast.Attribute) and n.func.attr in ('setdefault', 'update') and n.args:
+                    cands.append(n.args[0])
+        for k in cands:
+            v = ev(k)
+            if isinstance(v, str):
+                out.setdefault(v, (m, k.lineno))
+            elif isinstance(k, ast.JoinedStr) or isinstance(k, ast.BinOp):
+                # composed keys (key_name + 'Am'): record the constant fragments so that a reader can see them; not a match
+                pass
+    return out
+
+
+def rule_reskeys(chk, idx, runner):
+    rid = 'C19.reskeys'
+    chk.rule(rid, 'every resolution field the runner compares and the supported Specs expect is a key some statement of the '
+                  'serving package writes', floor=12, control=True)
+    text_keys = written_keys(idx, {'recognizers_text'})
+    ctl = written_keys(idx, {'recognizers_choice'})
+    chk.control(rid, 'value' in ctl and 'isoCurrency' not in ctl)
+    for rec in sorted(RESKEY_PKG):
+        pkg = RESKEY_PKG[rec]
+        tmod_name, compared = RESKEY_COMPARED[rec]
+        tpath = os.path.join(TESTS, tmod_name + '.py')
+        if not os.path.isfile(tpath):
+            raise AnalysisError('anchor vanished: %s' % os.path.relpath(tpath, REPO))
+        tsrc = ast.parse(open(tpath, encoding='utf-8').read())
+        lits = {n.value for n in ast.walk(tsrc) if isinstance(n, ast.Constant) and isinstance(n.value, str)}
+        for k in compared:
+            if k not in lits:
+                raise AnalysisError('%s no longer mentions the resolution field %r: the table of compared fields is stale'
+                                    % (os.path.relpath(tpath, REPO), k))
+        keys = dict(text_keys)
+        keys.update(written_keys(idx, {pkg}))
+        expected = {}
+        files = 0
+        for p in sorted(glob.glob(os.path.join(SPECS, rec, '*', '*Model*.json'))):
+            try:
+                cases = json.load(open(p, encoding='utf-8-sig'))
+            except (ValueError, OSError) as e:
+                raise AnalysisError('%s unreadable: %s' % (os.path.relpath(p, REPO), e))
+            files += 1
+            for c in cases:
+                if not isinstance(c, dict) or not runner.supported(c):
+                    continue
+                for r in c.get('Results') or []:
+                    res = r.get('Resolution') if isinstance(r, dict) else None
+                    if not isinstance(res, dict):
+                        continue
+                    for k, v in res.items():
+                        expected[k] = expected.get(k, 0) + 1
+                        if k == 'values' and isinstance(v, list):
+                            for d in v:
+                                if isinstance(d, dict):
+                                    for kk in d:
+                                        expected[kk] = expected.get(kk, 0) + 1
+        if not files or not expected:
+            raise AnalysisError('no model-level Specs with resolutions found for %s' % rec)
+        gaps = []
+        for k in sorted(expected):
+            if k in compared:
+                w = keys.get(k)
+                chk.judge(w is not None, rid, os.path.join(SPECS, rec), '%s resolution field %r' % (rec, k),
+                          'written by %s' % (w[0].name if w else '-'),
+                          'the supported %s Specs expect the resolution field %r in %d values and the Python runner compares it, '
+                          'but no statement of %s (or recognizers_text) writes a key of that name: the field can never come out'
+                          % (rec, k, expected[k], pkg))
+            elif k not in keys:
+                gaps.append('%s (%d)' % (k, expected[k]))
+        if gaps:
+            chk.observe('C19.reskeys: %s Specs expect fields that no statement of %s writes and that the Python runner does not '
+                        'compare (feature gaps of the port, not decided): %s' % (rec, pkg, ', '.join(gaps)))
+
+
+_run_before_reskeys = run
+
+
+def run(chk):       # noqa: F811
+    _run_before_reskeys(chk)
+    idx = get_index()
+    rt = R.Routing(idx)
+    rt.analyse()
+    rule_reskeys(chk, idx, Runner(idx, rt))
